@@ -2,6 +2,7 @@ import ChiDriver.C04
 import ChiDriver.C01
 import ChiDriver.C08
 import ChiDriver.C02
+import ChiDriver.C03
 namespace ChiDriver
-def allOps : List (String × Op) := C04.ops ++ C01.ops ++ C08.ops ++ C02.ops
+def allOps : List (String × Op) := C04.ops ++ C01.ops ++ C08.ops ++ C02.ops ++ C03.ops
 end ChiDriver
